@@ -53,4 +53,12 @@ Monotone  == \A i \in 1..Len(out) : /\ out[i].p <= out[i].e
 NonEmptyUnlessEof == \A i \in 1..Len(out) : out[i].k \notin {"<eof>", "<err>"} => out[i].p < out[i].e
 OneEof    == \A i \in 1..Len(out) : out[i].k = "<eof>" => (i = Len(out) /\ status = "eof")
 InBuffer  == \A i \in 1..Len(out) : 0 <= out[i].p /\ out[i].e <= Len(buf)
+\* dot-identifier state: entered exactly by a '.' that follows an identifier, a parameter, ')' or ']'
+IsDotTok(t) == t.k = "p1" /\ t.v = <<46>>
+DotModeSound == st.dot => /\ IsDotTok(st.tok)
+                          /\ \E i \in 2..Len(out) : out[i] = st.tok /\ (out[i-1].k \in {"<ident>", "<param>"} \/ (out[i-1].k = "p1" /\ out[i-1].v \in {<<41>>, <<93>>}))
+\* in dot mode an identifier-like run is one <ident> token, whatever it spells (keyword, digits)
+DotIdentTotal == \A i \in 3..Len(out) :
+                   (IsDotTok(out[i-1]) /\ (out[i-2].k \in {"<ident>", "<param>"} \/ (out[i-2].k = "p1" /\ out[i-2].v \in {<<41>>, <<93>>}))
+                    /\ out[i].p < out[i].e /\ IsIdPart(buf[out[i].p + 1])) => out[i].k = "<ident>"
 =============================================================================
